@@ -270,10 +270,14 @@ def rule_discriminants(ctx):
         "`inc += 1` is no longer an unconditional top-level statement of the per-variant closure: variants with fields must still consume a discriminant value (`enum E { A, B(u8), C }`: C is 2)",
         {"stmts": rs},
     )
-    ret_i = next((i for i, r in enumerate(rs) if r.startswith("let ret=")), None)
-    need(ctx, "disc:inc-after-use", ret_i is not None and incs and incs[0][0] > ret_i and rs[-1] == "ret", w, "the offset is advanced before it is used for the current variant")
-    need(ctx, "disc:fieldless-only", ret_i is not None and "fields.is_empty().then_some((" in rs[ret_i], w, "constants are no longer generated for field-less variants only")
-    need(ctx, "disc:const-name", ret_i is not None and 'format_ident!("__DISCRIMINANT_{}",ident)' in rs[ret_i].replace(" ", ""), w, "the constant's name is no longer `__DISCRIMINANT_<variant identifier as written>`: a case-folding or otherwise non-injective name makes variants differing only in case collide (E0428)")
+    # the offset used for this variant is read from the counter *before* the counter advances: the first statement that
+    # reads `inc` (as `Literal::usize_unsuffixed(inc)` / `#inc`) precedes `inc += 1`
+    use_i = next((i for i, r in enumerate(rs) if r != "inc+=1" and re.search(r"usize_unsuffixed\(inc\)|#inc\b", r)), None)
+    later_reads = [i for i, r in enumerate(rs) if incs and i > incs[0][0] and re.search(r"usize_unsuffixed\(inc\)|#inc\b|\binc\b", r)]
+    need(ctx, "disc:inc-after-use", use_i is not None and bool(incs) and incs[0][0] > use_i and not later_reads, w, "the offset is advanced before it is used for the current variant")
+    allrs = ";".join(rs).replace(" ", "")
+    need(ctx, "disc:fieldless-only", "fields.is_empty().then_some((" in allrs, w, "constants are no longer generated for field-less variants only")
+    need(ctx, "disc:const-name", 'format_ident!("__DISCRIMINANT_{}",ident)' in allrs, w, "the constant's name is no longer `__DISCRIMINANT_<variant identifier as written>`: a case-folding or otherwise non-injective name makes variants differing only in case collide (E0428)")
     tt = texts(fn)
     need(ctx, "disc:const-expr", "(#last_discriminant)+#inc" in tt, w, "constant expression is no longer `<last explicit> + <offset>`", {"templates": tt})
     # .. for every enum: no other expression is chosen for some class of enums (`Enum::V as repr` needs the enum's generic
@@ -295,7 +299,9 @@ def rule_discriminants(ctx):
     # repr table
     ri = A.get_fn(ctx.files, "impl/src/utils.rs", "attr::repr_int::<ReprInt as ParseMultiple>::parse_attr_with")
     t = A.fn_text(ri)
-    names = re.findall(r'"([ui](?:8|16|32|64|128|size))"', str(t) + " ".join(A.render(e_) for e_ in A.referenced_consts(ri).values()))
+    called = {(A.path_str(c_["func"]) or "").split("::")[-1] for c_, _ in A.find(ri.block, "Expr::Call") if A.kind(c_["func"]) == "Expr::Path"}
+    helpers_txt = " ".join(str(A.fn_text(g_)) for g_ in A.functions(ri.file) if g_.name in called and g_.block is not None and g_.qual.split("::")[:-1] == ri.qual.split("::")[: len(g_.qual.split("::")) - 1])
+    names = re.findall(r'"([ui](?:8|16|32|64|128|size))"', str(t) + " ".join(A.render(e_) for e_ in A.referenced_consts(ri).values()) + helpers_txt)
     need(ctx, "repr:names", sorted(set(names)) == sorted(["u8", "u16", "u32", "u64", "u128", "usize", "i8", "i16", "i32", "i64", "i128", "isize"]), ctx.where(ri.file, ri.node), f"accepted repr integers are {sorted(set(names))}")
     # every hint is looked at, and a hint that is not the integer has its `(..)` body consumed: the callback leaves early
     # only right after it stored an integer repr (an early exit anywhere else leaves `align(2)`'s body unparsed:
@@ -468,8 +474,12 @@ def rule_from_str(ctx):
     need(ctx, "fromstr:newtype:delegation", deleg, w, "newtype FromStr no longer wraps `<Field as FromStr>::from_str(src)?`")
     need(ctx, "fromstr:newtype:error", "<#field_typeas#trait_path>::Err" in stt and any("typeErr=#error;" in s and "fnfrom_str(src:&str)->derive_more::core::result::Result<Self,#error>{derive_more::core::result::Result::Ok(#body)}" in s for s in stt), w, "newtype FromStr no longer returns the field type's own error unchanged")
     # reach condition of the refusal, canonical (aliases inlined, negations normalised)
-    one = [A.alpha(" && ".join(RJ.guard_chain(sf, c, ps, RJ._lets(sf))), numbered=False) for c, ps in A.find(sf.block, "Expr::Call") if A.kind(c["func"]) == "Expr::Path" and A.path_str(c["func"]) == "panic_one_field"]
-    need(ctx, "fromstr:newtype:single-field", one == ["if !($.fields.len()==1)||!($.enabled_fields().len()==1)"], w, f"newtype FromStr no longer requires exactly one (declared and enabled) field (refuses under {one})")
+    # (the refusal is a call of the `-> !` helper or the panic itself)
+    sites_ = [(c, ps) for c, ps in A.find(sf.block, "Expr::Call") if A.kind(c["func"]) == "Expr::Path" and A.path_str(c["func"]) == "panic_one_field"]
+    sites_ += [(m_, ps) for m_, ps in A.find(sf.block, ("Expr::Macro", "Stmt::Macro")) if A.path_last(m_["mac"]["path"]) == "panic"]
+    one_f = [RJ.site_formula(sf, c, ps) for c, ps in sites_]
+    want_f = GF.f_or([GF.f_not(("is", "$.fields.len()", "1")), GF.f_not(("is", "$.enabled_fields().len()", "1"))])
+    need(ctx, "fromstr:newtype:single-field", len(one_f) == 1 and GF.equivalent(one_f[0], want_f)[0], w, f"newtype FromStr no longer requires exactly one (declared and enabled) field (refuses under {[GF.canon_text(x) for x in one_f]})")
 
 
 # ---------------------------------------------------------------- C14
@@ -542,7 +552,20 @@ def rule_delegation(ctx):
         t = A.fn_text(fn)
         w = ctx.where(fn.file, fn.node)
         need(ctx, f"{meth}:call", any(f"{{#casted_trait::{meth}({r}#member,idx)}}" in s for s in tt), w, f"{meth} no longer forwards `(&[mut] self.field, idx)` to the field's own implementation", {"templates": tt})
-        need(ctx, f"{meth}:bound", "where#field_type:#trait_path_with_params" in tt and "add_where_clauses_for_new_ident(&input.generics,&[field],&index_type,type_where_clauses,true)" in t, w, f"{meth}: the index type parameter / `FieldTy: Index<__IdxT>` bound changed")
+        # `add_where_clauses_for_new_ident(&input.generics, &[field], &index_type, <where FieldTy: Trait<__IdxT>>, true)`,
+        # the where-clause given inline or through an alias
+        b_ok = False
+        for c_, _ in A.find(fn.block, "Expr::Call"):
+            if A.kind(c_["func"]) == "Expr::Path" and A.path_str(c_["func"]).split("::")[-1] == "add_where_clauses_for_new_ident" and len(c_["args"]) == 5:
+                a_ = [A.render(x_).replace(" ", "") for x_ in c_["args"]]
+                wexpr = A.peel(c_["args"][3])
+                if A.kind(wexpr) == "Expr::Path":
+                    inits_ = [st_["init"]["expr"] for st_, _ in A.find(fn.block, "Stmt::Local") if st_.get("init") and A.pat_idents(st_["pat"]) == [A.path_str(wexpr)]]
+                    wexpr = A.peel(inits_[0]) if len(inits_) == 1 else wexpr
+                wtxt = T.ir_text(T.to_ir(wexpr["mac"]["tokens"])).replace(" ", "") if A.kind(wexpr) == "Expr::Macro" and A.path_last(wexpr["mac"]["path"]) == "quote" else None
+                if a_[0] == "&input.generics" and a_[1] == "&[field]" and a_[2] == "&index_type" and a_[4] == "true" and wtxt is not None and A.TTxt(wtxt).same("where#field_type:#trait_path_with_params"):
+                    b_ok = True
+        need(ctx, f"{meth}:bound", "where#field_type:#trait_path_with_params" in tt and b_ok, w, f"{meth}: the index type parameter / `FieldTy: Index<__IdxT>` bound changed")
         if meth == "index":
             need(ctx, "index:output", any("typeOutput=#casted_trait::Output;" in s for s in tt), w, "Index::Output is no longer the field's Output")
     ii = A.get_fn(ctx.files, "impl/src/into_iterator.rs", "expand")
